@@ -113,6 +113,14 @@ CHECKS = {
          "at most one bidirected edge away from outcomes and roots -- other shapes are left out because the unchanged library was reported (sub-agent, not reproduced deterministically) "
          "to depend on the hash seed there.",
          TRUST, "bounded syntactic vocabulary check on enumerated / sampled queries + contract-based proof of the ranges of ID lines 1-2", "DESIGN.md §5 C06"),
+ "C11": ("other", "No obligation is discharged for this property (stated in the evidence: obligations = 0): the Canon predicate (children sorted by the ordering, flat products sorted by an "
+         "injective key) needs an ordered-sequence / sort-key theory the VC generator does not have, so the check is the labelled bounded stand-in only. On sampled well-scoped "
+         "expressions of depth <= 3, products of 4-6 factors under random bracketings, and products of compound factors sharing their leading inner factor: idempotence, "
+         "invariance under presentation (factor order, product nesting, order of variables around the bar), and identical canonical text under three PYTHONHASHSEED values in fresh "
+         "interpreters. Two open known findings (sort-key ties; single-pass fraction / product handling) are replayed every run and their input classes K1, K2 -- computed from a "
+         "re-statement of the intended keys, not from the code under test -- are excluded from the clause they break.",
+         "Trusted: the exact evaluator and the re-statement of the intended sort keys in props/C11.py; note that canonicalize() sorts any supplied ordering by name, so the effective ordering is always alphabetical",
+         "bounded run-time check only (no contract discharged)", "DESIGN.md §5 C11"),
 }
 NA = {
  "C07": "not claimed: on the unchanged tree ID* violates the property, under the reading the property itself fixes, on a broad class that no contract within reach delimits -- 305 of 1,318 "
